@@ -104,6 +104,9 @@ func Open(dir string, config Config) (*DB, error) {
 func (db *DB) Close() {
 	defer atomic.StoreUint32(&db.state, uint32(StateClosed))
 	db.closeC <- struct{}{}
+	// wait until the flusher has drained its queue and stopped:
+	// the active memtable is the newest one and has to reach L0 last
+	<-db.closed
 
 	mt := db.memtable
 	mt.freeze()
@@ -114,8 +117,6 @@ func (db *DB) Close() {
 			db.logger.Warnf("failed to delete immutable wal file: %v", err)
 		}
 	}
-
-	<-db.closed
 }
 
 func (db *DB) View(fn TxnFunc) error {
